@@ -128,7 +128,7 @@ Section Hash.
   Definition witness_unlocks (t : tx) (idx : nat) (amount : Z) (l : lock) (wit : list bytes) : Prop :=
     match l with
     | L_p2wpkh h =>
-      exists sg pk, wit = [sg; pk] /\ length pk = 33%nat /\ h160 pk = h /\
+      exists sg pk, wit = [sg; pk] /\ h160 pk = h /\        (* compressed keys only: policy, not consensus *)
                     checksig (fun ht => sighash sha256 t idx amount (p2pkh_code h) ht) sg pk
     | L_p2wsh h =>
       exists stack ws s, wit = stack ++ [ws] /\ sha256 ws = h /\ decode_inner ws = Some s /\
